@@ -41,12 +41,13 @@ def key_ranks(unit):
     return {k: i + 1 for i, k in enumerate(order)}
 
 
-def mc_extra(unit):
+def mc_extra(unit, geo=None):
     ranks = key_ranks(unit)
     ks = " [] ".join('k = "%s" -> %d' % (k, v[1]) for k, v in KEYDEFS.items())
     rk = " [] ".join('k = "%s" -> %d' % (k, v) for k, v in ranks.items())
     ck = " [] ".join('p = "P" /\\ i = %d -> "P#%d"' % (i, i) for i in (0, 1))
-    return "MCKeySize(k) == CASE %s\nMCKeyRank(k) == CASE %s\nMCChildKey(p, i) == CASE %s\n" % (ks, rk, ck)
+    return "MCKeySize(k) == CASE %s\nMCKeyRank(k) == CASE %s\nMCChildKey(p, i) == CASE %s\nMCSpare == %d\n" % (
+        ks, rk, ck, geo["spare"] if geo else 1)
 
 
 def q(xs):
@@ -56,8 +57,8 @@ def q(xs):
 def model_cfg(geo, *, clients, maxops, mut="none", corr=False, maxcorrupt=0,
               kinds=("Put", "BadPut", "Get", "Fm", "Comp"), props="full", view=True, constraint=None):
     s = "INIT Init\nNEXT Next\n" + ("VIEW View\n" if view else "")
-    s += "CONSTANTS\n BlockSize = %d\n DesOld = %d\n DesCur = %d\n DesNew = %d\n Spare = %d\n Policy = \"%s\"\n" % (
-        geo["bs"], geo["old"], geo["cur"], geo["new"], geo["spare"], geo["policy"])
+    s += "CONSTANTS\n BlockSize = %d\n DesOld = %d\n DesCur = %d\n DesNew = %d\n Spare <- MCSpare\n Policy = \"%s\"\n" % (
+        geo["bs"], geo["old"], geo["cur"], geo["new"], geo["policy"])
     s += " Clients = {%s}\n Keys = {%s}\n Parents = {\"P\"}\n MaxOps = %d\n Mut = \"%s\"\n Corruptible = %s\n MaxCorrupt = %d\n OpKinds = {%s}\n" % (
         q(clients), q(KEYDEFS), maxops, mut, "TRUE" if corr else "FALSE", maxcorrupt, q(kinds))
     s += " KeySize <- MCKeySize\n KeyRank <- MCKeyRank\n ChildKey <- MCChildKey\n"
@@ -141,7 +142,7 @@ def gen_killers(regenerate=False):
                 r = vlib.run_tlc("LocalStore", model_cfg(geo, clients=["c1", "c2"], maxops=6, mut=mut, corr=corr,
                                                          maxcorrupt=2 if corr else 0, props="observable",
                                                          kinds=("Put", "Get", "Fm", "Comp") if prop != "C01" else ("Put", "BadPut", "Get", "Comp")),
-                                 extra=mc_extra(1), dump_trace=True, timeout=1500)
+                                 extra=mc_extra(1, geo), dump_trace=True, timeout=1500)
                 st = vlib.cex_states(r)
                 if r.violated and st:
                     out.append({"mutant": mut, "property": prop, "geo": geo, "violates": r.violated, "hist": st[-1]["hist"]})
@@ -189,7 +190,7 @@ def check(pid, tier, replay=None):
         # (M) exhaustive check of the design against all properties
         maxops = 4 if quick else 5
         r = vlib.run_tlc("LocalStore", model_cfg(geo, clients=["c1", "c2"], maxops=maxops, corr=corr,
-                                                 maxcorrupt=1 if corr else 0), extra=mc_extra(1), timeout=3000)
+                                                 maxcorrupt=1 if corr else 0), extra=mc_extra(1, geo), timeout=3000)
         vlib.require_model_ok(r, "LocalStore " + geo["name"])
         tot_states += r.distinct
         tot_trans += r.generated
@@ -203,7 +204,7 @@ def check(pid, tier, replay=None):
             rs = vlib.run_tlc("LocalStore", model_cfg(geo, clients=["c1", "c2", "c3"], maxops=9, corr=corr and hc["factory"] == "cas",
                                                       maxcorrupt=2 if corr_prop else (1 if corr else 0), props="none", view=False,
                                                       constraint="EmitScript"),
-                              extra=mc_extra(hc["unit"]), mode="simulate", sim_num=nsim, sim_depth=40,
+                              extra=mc_extra(hc["unit"], geo), mode="simulate", sim_num=nsim, sim_depth=40,
                               sim_seed=sd * 7919 + gi * 31 + hi, workers=1,
                               marker_sink=lambda m, obj: hists.append(obj), timeout=900)
             if not rs.ok:
@@ -275,11 +276,11 @@ def check(pid, tier, replay=None):
         print("VIOLATION property=%s replay=%s" % (pid, path))
         log("  rejected trace %s at line %d: %s" % (tid, rj["line"], json.dumps(rj["event"])[:300]))
     if summ["drift_scripts"]:
-        for d in summ["first_drifts"][:3]:
+        for d in (summ["first_drifts"] or [])[:3]:
             log("DRIFT property=%s %s" % (pid, json.dumps(d)[:500]))
     cov["design_conformance"] = {"scripts_with_expectations": len([s for s in scripts if s["id"].startswith("sim/")]),
                                  "completions_compared": summ["completions_compared"],
-                                 "drifted_scripts": summ["drift_scripts"], "first_drifts": summ["first_drifts"][:3]}
+                                 "drifted_scripts": summ["drift_scripts"], "first_drifts": (summ["first_drifts"] or [])[:3]}
     cov.update({
         "states": tot_states, "transitions": tot_trans,
         "traces_validated_against_impl": n_traces, "trace_events_validated": n_events, "trace_validator_states": vstates,
